@@ -62,6 +62,10 @@ class WordDomain(RingDomain):
         self.splits = {}
         self.ranges = {}            # symbol -> inclusive upper bound
         self.divs = {}
+        self.borrows = {}
+        self.facts = []             # (Poly, lo, hi): lo <= Poly <= hi  -- range facts of truncated values, for the relational bound prover
+        self.use_z3 = False         # relational bounds: before introducing a carry symbol, ask z3 (QF_LIA over the facts) whether the value fits
+        self.z3_calls = 0
         self.bounds = {}            # repr(poly) -> tightened inclusive upper bound learnt from a branch condition
         self.constraints = []       # (Poly, rel) path constraints of the branches taken
         self.sums = {}              # repr(truncated sum) -> (x, y, carry): for the carry-detect idiom  (x + y) < x
@@ -97,12 +101,16 @@ class WordDomain(RingDomain):
             lo = wv(lo)
             return simp(WVal(lo.p * g, lo.hi * g)), c
         key = (repr(v.p), w)
+        if key not in self.splits and self.use_z3 and v.hi < (top << 1) and self.prove_lt(v.p, top):
+            # the value provably fits (relational bound over the recorded facts): no carry
+            self.splits[key] = (WVal(v.p, top - 1, v.parts), 0)
         if key not in self.splits:
             self.ncarry += 1
             name = "c#%d" % self.ncarry
             self.ranges[name] = v.hi >> w
             c = WVal(Poly.var(name), v.hi >> w)
             lo = WVal(v.p - c.p * top, top - 1)
+            self.facts.append((lo.p, 0, top - 1))
             self.splits[key] = (lo, c)
         return self.splits[key]
 
@@ -161,6 +169,93 @@ class WordDomain(RingDomain):
             prev_hi = hi
         out.append(prev_hi)
         return self.from_digits(out[:n])
+
+    def borrow(self, a, b):
+        """a - b == d - 2^64 * bw with 0 <= d < 2^64, bw in {0, 1}"""
+        a, b = wv(a), wv(b)
+        if b.p.is_zero():
+            return simp(a), 0
+        if a.p.is_const() and b.p.is_const():
+            x = a.p.const_value() - b.p.const_value()
+            return x % (1 << 64), 1 if x < 0 else 0
+        diff = a.p - b.p
+        key = repr(diff)
+        if key not in self.borrows and self.use_z3 and self.prove_lt(-diff, 1):
+            self.borrows[key] = (WVal(diff, a.hi), 0)
+        if key not in self.borrows:
+            self.ncarry += 1
+            name = "b#%d" % self.ncarry
+            self.ranges[name] = 1
+            bw = WVal(Poly.var(name), 1)
+            d = WVal(diff + bw.p * (1 << 64), (1 << 64) - 1)
+            self.facts.append((d.p, 0, (1 << 64) - 1))
+            self.borrows[key] = (d, bw)
+        return self.borrows[key]
+
+    # ---- relational bounds (z3, QF_LIA; non-linear monomials become opaque variables with interval bounds) ----
+    def _lin(self, p, mons):
+        terms = []
+        for m, c in p.t.items():
+            if not m:
+                terms.append(str(c) if c >= 0 else "(- %d)" % -c)
+                continue
+            if len(m) == 1 and m[0][1] == 1:
+                v = m[0][0]
+            else:
+                v = "mon!" + "*".join("%s^%d" % (x, e) for x, e in m)
+                b = 1
+                for x, e in m:
+                    b *= self.ranges.get(x, (1 << 64) - 1) ** e
+                mons[v] = b
+            mons.setdefault(v, self.ranges.get(v, (1 << 64) - 1))
+            sym = "|%s|" % v
+            terms.append("(* %s %s)" % (str(c) if c >= 0 else "(- %d)" % -c, sym))
+        if not terms:
+            return "0"
+        return "(+ %s)" % " ".join(terms) if len(terms) > 1 else terms[0]
+
+    def prove_lt(self, p, bound, timeout=20):
+        """p < bound (for an integer-valued p the same as p <= bound - 1, but provable over the rationals more often)"""
+        return self.prove_le(p, bound, timeout=timeout, strict=True)
+
+    def prove_le(self, p, bound, timeout=20, ints=False, strict=False):
+        """True iff  p <= bound  follows from the symbol ranges, the recorded range facts and the path constraints.
+        Decided over the RATIONALS by default (linear programming: unsatisfiable there implies unsatisfiable over the integers, so a True
+        answer is sound; the bounds needed here are all LP consequences), over the integers when ints=True."""
+        import groupdom
+        mons = {}
+        lines = []
+        goal = self._lin(p, mons)
+        body = []
+        for (f, lo, hi) in self.facts:
+            t = self._lin(f, mons)
+            body.append("(assert (and (<= %d %s) (<= %s %d)))" % (lo, t, t, hi))
+        rel = {"<": "(< %s 0)", ">": "(> %s 0)", "<=": "(<= %s 0)", ">=": "(>= %s 0)", "==": "(= %s 0)", "!=": "(not (= %s 0))"}
+        for d, o in self.constraints:
+            body.append("(assert %s)" % (rel[o] % self._lin(d, mons)))
+        for v, hi in sorted(mons.items()):
+            lines.append("(declare-const |%s| %s)" % (v, "Int" if ints else "Real"))
+            lines.append("(assert (and (<= 0 |%s|) (<= |%s| %d)))" % (v, v, hi))
+        txt = "(set-option :timeout %d)\n" % (timeout * 1000) + "\n".join(lines + body) + "\n(assert (%s %s %d))\n(check-sat)\n" % (">=" if strict else ">", goal, bound)
+        self.z3_calls += 1
+        if txt in groupdom._Z3_CACHE:
+            return groupdom._Z3_CACHE[txt][0] == "unsat"
+        res = groupdom._z3_run(txt, timeout)
+        if res[0] != "unknown":
+            groupdom._Z3_CACHE[txt] = res
+        return res[0] == "unsat"
+
+    def zero_symbols(self, p, timeout=20):
+        """carry / borrow symbols occurring in p that are provably 0 on this path are recorded as equalities (then reduce_eq removes them)"""
+        found = []
+        for v in sorted(p.vars()):
+            if (v.startswith("c#") or v.startswith("b#")) and self.prove_lt(Poly.var(v), 1, timeout=timeout):
+                self.constraints.append((Poly.var(v), "=="))
+                found.append(v)
+        return found
+
+    def add_fact(self, p, lo, hi):
+        self.facts.append((p, lo, hi))
 
     def fit(self, v, ts):
         ts = ts.replace("const ", "").strip()
@@ -265,6 +360,14 @@ class WordDomain(RingDomain):
     def truth(self, I, v):
         """branch on a comparison of symbolic words: both outcomes are explored (fork); the outcome is recorded as a path constraint and,
         for comparisons against a constant, as a tightened bound.  Infeasible combinations are pruned with z3 when the constraints are linear."""
+        if isinstance(v, WVal) and self.refine(v).hi <= 1 and not v.p.is_const():
+            feas = [self.feasible(self.constraints + [(v.p - k, "==")]) for k in (1, 0)]
+            if feas == [False, False]:
+                from scen import Abandon
+                raise Abandon()
+            out = True if feas == [True, False] else (False if feas == [False, True] else I.path.decide(("flag", repr(v.p)[:100]), (True, False)))
+            self.constraints.append((v.p - (1 if out else 0), "=="))
+            return out
         if isinstance(v, WVal):
             v = Cond("!=", v, wv(0))
         if not isinstance(v, Cond):
@@ -287,6 +390,14 @@ class WordDomain(RingDomain):
             out = I.path.decide(("cmp", v.op, repr(d)[:100]), (True, False))
         op_ = v.op if out else neg[v.op]
         self.constraints.append((d, op_))
+        if op_ == "!=" and self.use_z3:
+            # integers: d != 0 and d >= 0 give d >= 1 (the rational relaxation used by prove_le cannot see that by itself)
+            if self.prove_lt(-d, 1):
+                self.constraints.append((d - 1, ">="))
+            elif self.prove_lt(d, 1):
+                self.constraints.append((d + 1, "<="))
+        if op_ in ("<", ">"):
+            self.constraints.append((d + 1, "<=") if op_ == "<" else (d - 1, ">="))
         # bounds from comparisons against constants
         for x, y, o in ((a, b, op_), (b, a, {"<": ">", ">": "<", "<=": ">=", ">=": "<=", "==": "==", "!=": "!="}[op_])):
             if y.p.is_const() and not x.p.is_const():
